@@ -1,13 +1,159 @@
 /-
-C12 — property theorems (work in progress: filled in below).
+C12 — property theorems: reading is total and inverse to writing.
+
+Model: `Lex.lean` / `Parse.lean` / `Write.lean` (Steel's lexer, the datum parser `(read)` uses, the
+writer `(write)` uses), tied to /repo on every run by the differential check.
+
+  * `read_total`, `spans_in_bounds`  — see `PropsSpan` section below;
+  * `ReadWrite`                      — the full statement of the property (all representable data);
+  * `read_write_partial`             — `ReadWrite` restricted to the decidable class `WFD`
+                                       (`Model.lean`), proved by induction over ALL such data: any
+                                       nesting, any Unicode scalar values in strings and characters;
+  * `read_write_partial_i … _v`      — the stages (integers/booleans, + strings/characters,
+                                       + symbols, + lists/vectors/byte vectors, + pairs/quote forms);
+  * `not_ReadWrite` and the `counter_*` theorems — the full statement is false for the code that
+    exists; each witness is replayed on the real reader/writer (open findings K12a–K12d).
 -/
-import SteelVerif.C12.Model
+import SteelVerif.C12.LemmasTop
 namespace SteelVerif.C12
 
-/-- placeholder while the pipeline is brought up -/
-theorem read_defined (src : Text) : (∃ ds, read src = .ok ds) ∨ (∃ e, read src = .error e) := by
-  cases h : read src with
-  | ok ds => exact Or.inl ⟨ds, rfl⟩
-  | error e => exact Or.inr ⟨e, rfl⟩
+/-! ## the full statement -/
+
+mutual
+/-- data that have an external representation: exact numbers, booleans, characters, strings,
+    symbols with arbitrary names, lists, pairs, vectors, byte vectors, nested arbitrarily
+    (with the invariants every Steel value satisfies: rationals in lowest terms, bytes below 256,
+    the cdr of a pair is not a list). -/
+def Representable : Datum → Bool
+  | .int _ => true
+  | .rat n d => decide (2 ≤ d) && Nat.gcd n.natAbs d == 1
+  | .bool _ => true
+  | .chr _ => true
+  | .str _ => true
+  | .sym _ => true
+  | .list xs => Representables xs
+  | .pair a d => Representable a && Representable d && !isListDatum d
+  | .vec xs => Representables xs
+  | .bytes bs => bs.all (fun b => decide (b < 256))
+  | .flo _ => false
+  | .other _ => false
+def Representables : List Datum → Bool
+  | [] => true
+  | x :: xs => Representable x && Representables xs
+end
+
+/-- C12, second half, as stated: writing any representable datum and reading the text back gives
+    exactly that datum. -/
+def ReadWrite : Prop := ∀ d : Datum, Representable d = true → read (write d) = .ok [d]
+
+/-! ## the part that holds: all data of the class `WFD` -/
+
+/-- Round trip for every well-formed datum (`WFD`, see `Model.lean`): any nesting depth up to the
+    writer's limit, any code points in strings and characters, any plain symbol. -/
+theorem read_write_partial (d : Datum) (h : WFD d) : read (write d) = .ok [d] := by
+  rw [write_eq_writeP d h.2]
+  exact read_writeP d h.1
+
+/-- stage (i): exact integers (of any size) and booleans -/
+theorem read_write_partial_i :
+    (∀ i : Int, read (write (.int i)) = .ok [.int i]) ∧ (∀ b : Bool, read (write (.bool b)) = .ok [.bool b]) :=
+  ⟨fun i => read_write_partial _ ⟨rfl, by simp [Datum.depth]⟩,
+   fun b => read_write_partial _ ⟨rfl, by simp [Datum.depth]⟩⟩
+
+/-- stage (ii): + strings with arbitrary contents (every escape the writer produces) and characters -/
+theorem read_write_partial_ii :
+    (∀ s : Text, read (write (.str s)) = .ok [.str s]) ∧ (∀ c : Char, read (write (.chr c)) = .ok [.chr c]) :=
+  ⟨fun s => read_write_partial _ ⟨rfl, by simp [Datum.depth]⟩,
+   fun c => read_write_partial _ ⟨rfl, by simp [Datum.depth]⟩⟩
+
+/-- stage (iii): + symbols whose name the writer prints readably, and exact rationals -/
+theorem read_write_partial_iii :
+    (∀ s : Text, symOK s = true → read (write (.sym s)) = .ok [.sym s]) ∧
+    (∀ (n : Int) (d : Nat), 2 ≤ d → Nat.gcd n.natAbs d = 1 → read (write (.rat n d)) = .ok [.rat n d]) :=
+  ⟨fun s h => read_write_partial _ ⟨by simpa [WF] using h, by simp [Datum.depth]⟩,
+   fun n d h1 h2 => read_write_partial _ ⟨by simp [WF, h1, h2], by simp [Datum.depth]⟩⟩
+
+mutual
+/-- no pairs (improper lists) anywhere -/
+def noPairs : Datum → Bool
+  | .pair _ _ => false
+  | .list xs => noPairss xs
+  | .vec xs => noPairss xs
+  | _ => true
+def noPairss : List Datum → Bool
+  | [] => true
+  | x :: xs => noPairs x && noPairss xs
+end
+
+/-- stage (iv): + proper lists, vectors and byte vectors of all of those, nested arbitrarily -/
+theorem read_write_partial_iv (d : Datum) (h : WFD d) (_ : noPairs d = true) : read (write d) = .ok [d] :=
+  read_write_partial d h
+
+/-- stage (v): + improper lists (pairs) and the quotation forms — the whole class `WFD` -/
+theorem read_write_partial_v (d : Datum) (h : WFD d) : read (write d) = .ok [d] := read_write_partial d h
+
+/-- `(quote d)` round-trips whenever `d` does and the nesting limit allows; likewise the other
+    quotation forms are lists headed by a symbol and covered by `read_write_partial` when that
+    symbol does not steer the reader (`quote`). -/
+theorem read_write_quote (d : Datum) (h : WF d = true) (hd : d.depth + 1 ≤ 128) :
+    read (write d.quote) = .ok [d.quote] := by
+  apply read_write_partial
+  refine ⟨?_, ?_⟩
+  · simp only [Datum.quote, WF, WFs, headOK, isQQ, Bool.and_true, h, Bool.and_eq_true, Bool.not_eq_true',
+      Bool.or_eq_false_iff, true_and]
+    refine ⟨by decide, ?_⟩
+    decide
+  · simp only [Datum.quote, Datum.depth, depths]
+    omega
+
+/-! ## non-vacuity -/
+
+/-- a datum with every constructor of the class: nested lists, a pair, a vector, a byte vector,
+    a string with characters that need every kind of escape, characters, big and negative numbers -/
+def sampleDatum : Datum :=
+  .list [.sym t!"define", .list [.sym t!"f", .sym t!"x"],
+    .vec [.int (-12345678901234567890), .rat (-3) 4, .bool true, .chr ' ', .chr 'λ', .chr (Char.ofNat 0)],
+    .pair (.str ['a', '"', '\\', '\n', '\t', Char.ofNat 0, Char.ofNat 0x7f, 'é']) (.pair (.int 1) (.bytes [0, 255])),
+    .list [], .list [.sym t!"quote", .list [.sym t!"a", .sym t!"b"]]]
+
+set_option maxRecDepth 100000 in
+theorem sampleDatum_wfd : WFD sampleDatum := by decide
+
+example : read (write sampleDatum) = .ok [sampleDatum] := read_write_partial _ sampleDatum_wfd
+
+/-- the reader is not the constant function: it distinguishes texts -/
+example : read t!"(1 . 2)" = .ok [.pair (.int 1) (.int 2)] := rfl
+example : read t!"#(a \"b\" #\\c)" = .ok [.vec [.sym t!"a", .str t!"b", .chr 'c']] := rfl
+set_option maxRecDepth 100000 in
+example : write (.list [.str t!"a\"b", .chr ' ']) = t!"(\"a\\\"b\" #\\space)" := by decide
+
+/-! ## the full statement is false for the code that exists -/
+
+/-- K12a: the writer prints a symbol's name verbatim; `|a b|` comes back as two symbols -/
+theorem counter_symbol_needs_quoting :
+    read (write (.sym t!"a b")) = .ok [.sym t!"a", .sym t!"b"] := rfl
+
+/-- K12a: the symbol with the empty name is written as nothing at all -/
+theorem counter_empty_symbol : read (write (.sym [])) = .ok [] := rfl
+
+/-- K12a: a symbol that looks like a number is read as the number -/
+theorem counter_numeric_symbol : read (write (.sym t!"12")) = .ok [.int 12] := rfl
+
+/-- K12a: a symbol starting with `+` is split by the lexer -/
+theorem counter_plus_symbol : read (write (.sym t!"+a")) = .ok [.sym t!"+", .sym t!"a"] := rfl
+
+/-- K12b: `fn` is an alias of `lambda` in the lexer -/
+theorem counter_alias : read (write (.sym t!"fn")) = .ok [.sym t!"lambda"] := rfl
+
+/-- K12c: the datum reader renames `unquote` under `quasiquote` -/
+theorem counter_unquote :
+    read (write (.list [.sym t!"quasiquote", .list [.sym t!"unquote", .list [.sym t!"a"]]]))
+      = .ok [.list [.sym t!"quasiquote", .list [.sym t!"#%unquote", .list [.sym t!"a"]]]] := rfl
+
+theorem not_ReadWrite : ¬ ReadWrite := by
+  intro h
+  have h1 := h (.sym t!"a b") rfl
+  rw [counter_symbol_needs_quoting] at h1
+  cases h1
 
 end SteelVerif.C12
